@@ -2593,6 +2593,19 @@ proof {
 //@@ also fn meta external_body
 //@@ end
 
+
+// ---- entry point (C11, C01)
+//@@ fn src/info.rs | impl OptionParser | fn run_inner
+//@@ unit info.OptionParser.run_inner tags=C11,C10,C20,C09
+//@@ ret r
+//@@ spec
+        requires self.inner.pwf(),
+        ensures
+            r is Ok ==> exists|pre: State, post: State| pre.wf() && pre.scope.start == 0 && pre.scope.end == pre.items.len()
+                && (no_comp(pre) ==> dd_rule(pre.items@, pre.item_state@))
+                && #[trigger] run_rel(*self, pre, r, post), // #a_value_only_through_run_subparser_on_the_tokenised_line
+//@@ end
+
 // ---------------------------------------------------------------- feature = "autocomplete" only
 //@@ fn src/args.rs | mod inner | impl State | fn comp_mut
 //@@ unit args.State.comp_mut tags=C20
@@ -2605,6 +2618,13 @@ proof {
                 Some(c) => old(self).comp == Some(*c) && final(self).comp == Some(*final(c)),
                 None => *final(self) == *old(self),
             },
+//@@ end
+
+//@@ fn src/args.rs | mod inner | impl State | fn comp_ref
+//@@ unit args.State.comp_ref tags=C20
+//@@ ret r
+//@@ spec
+        ensures r is Some == self.comp is Some, // #some_iff_completion_mode
 //@@ end
 
 //@@ fn src/args.rs | mod inner | impl State | fn swap_comps
